@@ -231,6 +231,12 @@ class Check:
         for f in glob.glob(os.path.join(ROOT, "replays", self.pid + "-*.json")):
             os.unlink(f)
         self.implrun = build_harness()
+        keys = os.path.join(BUILD, "pgpkeys.asc")
+        os.environ["VERIF_PGPKEYS"] = keys
+        if not os.path.exists(keys):
+            r = run_lines(self.implrun, [("csinit", [keys.encode()])])
+            if r != ["ok"]:
+                raise Infra("could not generate the OpenPGP test keys: %r" % r)
         self.schema_changed = regen_schema()
         rc, out = coq_make()
         self.make_ok = (rc == 0)
